@@ -33,6 +33,29 @@ func init() {
 	})
 }
 
+// drawHostile picks a constant of hostileVarints or a value just below a
+// power-of-two limit (2^31, 2^32, 2^63, 2^64 minus 1..81): index arithmetic
+// that adds a small offset to such a length wraps around.
+func drawHostile(rt *rapid.T, label string) []byte {
+	if rapid.Bool().Draw(rt, label+"Near") {
+		base := rapid.SampledFrom([]uint64{1 << 31, 1 << 32, 1 << 63, 0}).Draw(rt, label+"Base")
+		return protowire.AppendVarint(nil, base-1-uint64(rapid.IntRange(0, 80).Draw(rt, label+"Delta")))
+	}
+	return rapid.SampledFrom(hostileVarints).Draw(rt, label)
+}
+
+// unmarshalVariants are the option sets every input is also decoded under.
+var unmarshalVariants = []struct {
+	name string
+	opts proto.UnmarshalOptions
+}{
+	{"DiscardUnknown", proto.UnmarshalOptions{DiscardUnknown: true}},
+	{"Merge", proto.UnmarshalOptions{Merge: true}},
+	{"AllowPartial", proto.UnmarshalOptions{AllowPartial: true}},
+	{"RecursionLimit=3", proto.UnmarshalOptions{RecursionLimit: 3}},
+	{"DiscardUnknown+Merge+RecursionLimit=50", proto.UnmarshalOptions{DiscardUnknown: true, Merge: true, RecursionLimit: 50}},
+}
+
 var hostileVarints = [][]byte{
 	{0x00}, {0x01}, {0x7f}, {0x80, 0x01},
 	{0xff, 0xff, 0xff, 0xff, 0x07},       // 2^31-1
@@ -80,7 +103,7 @@ func mutate(rt *rapid.T, ctx *Ctx, t *model.Type, b []byte, labels map[string]in
 			b = append(append([]byte{}, b[:i1]...), o[j:]...)
 		case 3:
 			labels["mut:hostile-varint-overwrite"]++
-			h := rapid.SampledFrom(hostileVarints).Draw(rt, "hostile")
+			h := drawHostile(rt, "hostile")
 			p := rapid.IntRange(0, len(b)).Draw(rt, "pos")
 			end := p + rapid.IntRange(0, 2).Draw(rt, "eat")
 			if end > len(b) {
@@ -123,8 +146,17 @@ func mutate(rt *rapid.T, ctx *Ctx, t *model.Type, b []byte, labels map[string]in
 			if fds.Len() > 0 {
 				labels["mut:hostile-length-record"]++
 				fd := fds.Get(rapid.IntRange(0, fds.Len()-1).Draw(rt, "lenfield"))
-				rec := protowire.AppendTag(nil, fd.Number(), protowire.BytesType)
-				rec = append(rec, rapid.SampledFrom(hostileVarints).Draw(rt, "hostilelen")...)
+				num := fd.Number()
+				if rapid.Bool().Draw(rt, "unknownfield") {
+					// the same attack on a field number the message does not declare (the skip path)
+					labels["mut:hostile-length-unknown-field"]++
+					num = protowire.Number(rapid.SampledFrom([]int{1, 2, 15, 16, 999, 2047, 2048, 100000, 536870911}).Draw(rt, "unknum"))
+					for t.Desc.Fields().ByNumber(num) != nil {
+						num++
+					}
+				}
+				rec := protowire.AppendTag(nil, num, protowire.BytesType)
+				rec = append(rec, drawHostile(rt, "hostilelen")...)
 				rec = append(rec, rapid.SliceOfN(rapid.Byte(), 0, 6).Draw(rt, "body")...)
 				if rapid.Bool().Draw(rt, "ingroup") {
 					// the same attack inside an (unknown) group, possibly nested
@@ -283,6 +315,32 @@ func checkDecodeTotal(ctx *Ctx, c *Case) error {
 		}
 		ctx.Label("allocation measured")
 	}
+	// the same input under another option set (chosen by the input): no panic,
+	// no hang, input untouched, and an accepted message is usable
+	v := unmarshalVariants[digest(c.Bytes, "variant")%uint64(len(unmarshalVariants))]
+	vres, vhung := decodeGuarded(t, b, v.opts, false)
+	switch {
+	case vhung:
+		done := make(chan struct{})
+		go func() { _ = v.opts.Unmarshal(b, t.New()); close(done) }()
+		select {
+		case <-done:
+			ctx.Label("slow call (finished within 10x watchdog, not reported)")
+		case <-time.After(200 * time.Second):
+			return fmt.Errorf("Unmarshal with %s did not return within 220 s on %d bytes", v.name, len(b))
+		}
+	case vres.panicked != nil:
+		return fmt.Errorf("Unmarshal with options %s panicked: %v\n%s", v.name, vres.panicked, trunc(vres.stack, 1200))
+	case !bytes.Equal(b, pristine):
+		return fmt.Errorf("Unmarshal with options %s modified its input", v.name)
+	case vres.err == nil:
+		if err := usable(ctx, t, b, vres.p); err != nil {
+			return fmt.Errorf("message accepted by Unmarshal with options %s is not usable afterwards: %v", v.name, err)
+		}
+		ctx.Label("variant " + v.name + ": accepted")
+	default:
+		ctx.Label("variant " + v.name + ": rejected")
+	}
 	if res.err != nil {
 		ctx.Label("rejected")
 		if len(b) > 2 {
@@ -413,16 +471,27 @@ func cyclePath(md protoreflect.MessageDescriptor) []hop {
 // nestedPayload builds an encoding of md whose innermost message sits
 // `levels` message levels below the top-level message, following path
 // cyclically.
-func nestedPayload(path []hop, levels int) []byte {
+func nestedPayload(path []hop, levels int) []byte { return widePayload(path, levels, 1) }
+
+// widePayload is nestedPayload with width-1 empty siblings in front of the
+// nested record at every level: siblings do not nest, so they must not cost
+// recursion budget.
+func widePayload(path []hop, levels, width int) []byte {
+	rec := func(h hop, inner []byte) []byte {
+		if h.isMap {
+			entry := protowire.AppendBytes(protowire.AppendTag(nil, 2, protowire.BytesType), inner)
+			return protowire.AppendBytes(protowire.AppendTag(nil, h.num, protowire.BytesType), entry)
+		}
+		return protowire.AppendBytes(protowire.AppendTag(nil, h.num, protowire.BytesType), inner)
+	}
 	var b []byte
 	for i := levels - 1; i >= 0; i-- {
 		h := path[i%len(path)]
-		if h.isMap {
-			entry := protowire.AppendBytes(protowire.AppendTag(nil, 2, protowire.BytesType), b)
-			b = protowire.AppendBytes(protowire.AppendTag(nil, h.num, protowire.BytesType), entry)
-		} else {
-			b = protowire.AppendBytes(protowire.AppendTag(nil, h.num, protowire.BytesType), b)
+		var lvl []byte
+		for w := 1; w < width; w++ {
+			lvl = append(lvl, rec(h, nil)...)
 		}
+		b = append(lvl, rec(h, b)...)
 	}
 	return b
 }
@@ -432,11 +501,12 @@ type depthCase struct {
 	Levels int    `json:"levels"`
 	Limit  int    `json:"limit"`
 	Hops   []int  `json:"hops,omitempty"` // explicit walk (field numbers) instead of the cyclic path
+	Width  int    `json:"width,omitempty"` // > 1: that many records per level (empty siblings before the nested one)
 }
 
 // walkPayload nests empty messages along an explicit walk of message-typed
 // fields starting at md (map fields are entered through their value).
-func walkPayload(md protoreflect.MessageDescriptor, hops []int) ([]byte, bool) {
+func walkPayload(md protoreflect.MessageDescriptor, hops []int, width int) ([]byte, bool) {
 	var chain []hop
 	cur := md
 	for _, n := range hops {
@@ -455,7 +525,10 @@ func walkPayload(md protoreflect.MessageDescriptor, hops []int) ([]byte, bool) {
 			return nil, false
 		}
 	}
-	return nestedPayload(chain, len(chain)), true
+	if width < 1 {
+		width = 1
+	}
+	return widePayload(chain, len(chain), width), true
 }
 
 // messageWalks enumerates every walk of length 1 and 2 through message-typed
@@ -499,6 +572,8 @@ func runDepthArm(ctx *Ctx) {
 		}
 		for _, w := range messageWalks(t.Desc) {
 			cases = append(cases, depthCase{Type: string(t.Name), Hops: w, Limit: len(w)}, depthCase{Type: string(t.Name), Hops: w, Limit: len(w) + 1})
+			// several records of the field at every level: the limit is still exactly sufficient
+			cases = append(cases, depthCase{Type: string(t.Name), Hops: w, Limit: len(w) + 1, Width: 3}, depthCase{Type: string(t.Name), Hops: w, Limit: len(w), Width: 3})
 		}
 	}
 	for _, t := range model.Types() {
@@ -519,6 +594,10 @@ func runDepthArm(ctx *Ctx) {
 				}
 			}
 		}
+		for r := 2; r <= 6; r += 2 {
+			cases = append(cases, depthCase{Type: string(t.Name), Levels: r - 1, Limit: r, Width: 5}, depthCase{Type: string(t.Name), Levels: r, Limit: r, Width: 5})
+		}
+		cases = append(cases, depthCase{Type: string(t.Name), Levels: 2, Limit: 0, Width: 10050}) // > 10000 siblings under the default limit
 		for _, d := range []int{9990, 9998, 9999, 10000, 10001, 10010} {
 			cases = append(cases, depthCase{Type: string(t.Name), Levels: d, Limit: 0})
 		}
@@ -557,7 +636,7 @@ func runDepthArm(ctx *Ctx) {
 			var dc depthCase
 			parts := strings.SplitN(strings.TrimPrefix(ln, "DEPTH-BAD "), " :: ", 2)
 			_ = json.Unmarshal([]byte(parts[0]), &dc)
-			ctx.Violation(&Case{Sub: "depth", Type: dc.Type, Args: map[string]string{"levels": strconv.Itoa(dc.Levels), "limit": strconv.Itoa(dc.Limit), "hops": hopsStr(dc.Hops)}}, parts[1])
+			ctx.Violation(&Case{Sub: "depth", Type: dc.Type, Args: map[string]string{"levels": strconv.Itoa(dc.Levels), "limit": strconv.Itoa(dc.Limit), "hops": hopsStr(dc.Hops), "width": strconv.Itoa(dc.Width)}}, parts[1])
 			ctx.T.Fail()
 			current = ""
 		case ln == "DEPTH-DONE":
@@ -568,7 +647,7 @@ func runDepthArm(ctx *Ctx) {
 		// the child died: the case it announced last is the witness
 		var dc depthCase
 		if current != "" && json.Unmarshal([]byte(current), &dc) == nil {
-			ctx.Violation(&Case{Sub: "depth", Type: dc.Type, Args: map[string]string{"levels": strconv.Itoa(dc.Levels), "limit": strconv.Itoa(dc.Limit), "hops": hopsStr(dc.Hops)}},
+			ctx.Violation(&Case{Sub: "depth", Type: dc.Type, Args: map[string]string{"levels": strconv.Itoa(dc.Levels), "limit": strconv.Itoa(dc.Limit), "hops": hopsStr(dc.Hops), "width": strconv.Itoa(dc.Width)}},
 				fmt.Sprintf("child process died while decoding nesting depth %d with RecursionLimit %d (err=%v): %s", dc.Levels, dc.Limit, err, trunc(tailStr(out.String(), 600), 600)))
 			ctx.T.Fail()
 		} else {
@@ -600,7 +679,7 @@ func depthChild() {
 		if err != nil {
 			fmt.Printf("DEPTH-BAD %s :: %s\n", js, strings.ReplaceAll(err.Error(), "\n", " | "))
 		} else {
-			fmt.Printf("DEPTH-OK %s %d/%s %d %s\n", dc.Type, dc.Levels, hopsStr(dc.Hops), dc.Limit, verdict)
+			fmt.Printf("DEPTH-OK %s %d/%s/w%d %d %s\n", dc.Type, dc.Levels, hopsStr(dc.Hops), dc.Width, dc.Limit, verdict)
 		}
 	}
 	fmt.Println("DEPTH-DONE")
@@ -614,7 +693,7 @@ func checkDepth(dc depthCase) (string, error) {
 	var b []byte
 	if len(dc.Hops) > 0 {
 		var ok bool
-		if b, ok = walkPayload(t.Desc, dc.Hops); !ok {
+		if b, ok = walkPayload(t.Desc, dc.Hops, dc.Width); !ok {
 			return "", fmt.Errorf("HARNESS: walk %v is not valid for %s", dc.Hops, dc.Type)
 		}
 		dc.Levels = len(dc.Hops)
@@ -623,7 +702,11 @@ func checkDepth(dc depthCase) (string, error) {
 		if path == nil {
 			return "not-recursive", nil
 		}
-		b = nestedPayload(path, dc.Levels)
+		w := dc.Width
+		if w < 1 {
+			w = 1
+		}
+		b = widePayload(path, dc.Levels, w)
 	}
 	opts := proto.UnmarshalOptions{RecursionLimit: dc.Limit}
 	d := t.NewD()
@@ -636,7 +719,7 @@ func checkDepth(dc depthCase) (string, error) {
 		return "", fmt.Errorf("Unmarshal of %d nesting levels panicked: %v", dc.Levels, res.panicked)
 	}
 	if (derr == nil) != (res.err == nil) {
-		return "", fmt.Errorf("nesting %d levels with RecursionLimit %d: reference says %v, generated code says %v", dc.Levels, dc.Limit, derr, res.err)
+		return "", fmt.Errorf("nesting %d levels (%d records per level) with RecursionLimit %d: reference says %v, generated code says %v", dc.Levels, max(dc.Width, 1), dc.Limit, derr, res.err)
 	}
 	if derr == nil {
 		if canonI(res.p) != canonD(d.ProtoReflect()) {
@@ -650,7 +733,7 @@ func checkDepth(dc depthCase) (string, error) {
 func replayC06(ctx *Ctx, c *Case) error {
 	switch c.Sub {
 	case "depth":
-		_, err := checkDepth(depthCase{Type: c.Type, Levels: c.argInt("levels"), Limit: c.argInt("limit"), Hops: parseHops(c.arg("hops"))})
+		_, err := checkDepth(depthCase{Type: c.Type, Levels: c.argInt("levels"), Limit: c.argInt("limit"), Hops: parseHops(c.arg("hops")), Width: c.argInt("width")})
 		return err
 	case "fuzz":
 		return fuzzOne(ctx, unhex(c.Bytes))
